@@ -397,7 +397,15 @@ pub fn run_roundtrip(args: &Args, rep: &mut Report) {
 // ------------------------------------------------------------------------------------------
 // C08
 
-const ALLOC_LIMIT: usize = 256 << 20;
+/// "Unbounded allocation" is judged relative to the object at hand: a reader may allocate a few times the size of the
+/// input plus the unpacked size of the xorb the input was derived from (8x, never less than 8 MiB, never more than 256 MiB);
+/// a length field read from hostile bytes must not push it beyond that.
+static BASE_UNPACKED_LEN: std::sync::atomic::AtomicUsize = std::sync::atomic::AtomicUsize::new(0);
+
+fn alloc_limit(input_len: usize) -> usize {
+    let base = BASE_UNPACKED_LEN.load(std::sync::atomic::Ordering::Relaxed);
+    (8 * (input_len + base)).clamp(8 << 20, 256 << 20)
+}
 
 #[derive(Debug)]
 enum Verdict {
@@ -464,7 +472,7 @@ fn call_sync(bytes: &[u8], h: &MerkleHash) -> CallOutcome {
         verdict: Verdict::Error,
         problem: None,
     };
-    if peak > ALLOC_LIMIT {
+    if peak > alloc_limit(bytes.len()) {
         out.problem = Some(("val-sync-alloc".into(), format!("sync validator allocated {peak} bytes")));
     }
     match r {
@@ -499,7 +507,7 @@ fn call_async(rt: &tokio::runtime::Runtime, bytes: &[u8], h: &MerkleHash) -> Cal
         verdict: Verdict::Error,
         problem: None,
     };
-    if peak > ALLOC_LIMIT {
+    if peak > alloc_limit(bytes.len()) {
         out.problem = Some(("val-async-alloc".into(), format!("async validator allocated {peak} bytes")));
     }
     match r {
@@ -541,7 +549,7 @@ fn call_parsers(bytes: &[u8]) -> Option<(String, String)> {
     if let Err(p) = r {
         return Some(("parse-footer-panic".into(), format!("CasObject::deserialize panicked: {p}")));
     }
-    if peak > ALLOC_LIMIT {
+    if peak > alloc_limit(bytes.len()) {
         return Some(("parse-footer-alloc".into(), format!("CasObject::deserialize allocated {peak} bytes")));
     }
     // Safety valve of the harness: the boundaries-section parser sizes two vectors by the declared
@@ -560,7 +568,7 @@ fn call_parsers(bytes: &[u8]) -> Option<(String, String)> {
     if let Err(p) = r {
         return Some(("parse-boundaries-panic".into(), format!("deserialize_only_boundaries_section panicked: {p}")));
     }
-    if peak > ALLOC_LIMIT {
+    if peak > alloc_limit(bytes.len()) {
         return Some(("parse-boundaries-alloc".into(), format!("deserialize_only_boundaries_section allocated {peak} bytes")));
     }
     let (r, peak) = monitored(|| {
@@ -569,7 +577,7 @@ fn call_parsers(bytes: &[u8]) -> Option<(String, String)> {
     if let Err(p) = r {
         return Some(("parse-chunks-panic".into(), format!("deserialize_chunks panicked: {p}")));
     }
-    if peak > ALLOC_LIMIT.max(bytes.len() * 600) {
+    if peak > alloc_limit(bytes.len()).max(bytes.len() * 600) {
         return Some(("parse-chunks-alloc".into(), format!("deserialize_chunks allocated {peak} bytes")));
     }
     None
@@ -800,6 +808,7 @@ pub fn run_validate(args: &Args, rep: &mut Report) {
         // every 16th base has more chunks than the footer parsers preallocate for (1152): completeness only
         let many = k % 16 == 5;
         let b = if many { gen_base(&mut rng, 8192, 16) } else { gen_base(&mut rng, if big { 40 } else { 12 }, if big { 131072 } else { 700 }) };
+        BASE_UNPACKED_LEN.store(b.data.len(), std::sync::atomic::Ordering::Relaxed);
         let many = many && b.chunks.len() > 600;
         let muts_per_base = if many { 6 } else { muts_per_base };
         let n = b.chunks.len();
